@@ -100,6 +100,8 @@ def evaluate_any(spec):
     opts = spec.get("opts") or {}
     labels = ["any", "opts:" + "".join(k for k in ("a", "c", "g", "d", "f") if opts.get(k)) + ("m" if opts.get("m") is not None else "") + ("p" if opts.get("p") else "")]
     labels += ["has:" + k for k in kinds]
+    if any(c.get("hrr") for c in spec["conns"]):
+        labels.append("has:hello-retry-request")
     if spec.get("drop_keys"):
         labels.append("keys-missing")
     foreign = any(c["kind"] == "noise" for c in spec["conns"]) or bool(spec.get("drop_keys"))
@@ -116,6 +118,8 @@ def any_spec(draw):
         ep = strategies.endpoints(idx=i, sports=(sport,))
         if k == "tls":
             c = draw(strategies.tls_conn(max_records=6, max_len=600, ep=ep, delivery=strategies.tcp_delivery(dups=True), bytes_mode_limit=600))
+            if c["version"] == 0x0304 and draw(st.integers(0, 2)) == 0:
+                c["hrr"] = draw(st.integers(1, 2))      # what is exported after a HelloRetryRequest is not claimed, that the output is valid is
         elif k == "quic":
             c = draw(strategies.quic_conn(max_steps=6, ep=ep))
         else:
